@@ -258,6 +258,67 @@ def overload_task(task):
     return res
 
 
+def history_task(task):
+    """the binding of a call does not depend on which calls were typechecked before it: two calls of one overloaded name
+    in one function / in two functions, every ordered pair of argument forms that share a static type"""
+    from hv import tcspec as S
+    from hv import hidc as H
+    from hidc import ast as A
+    res = dict(name='overload-history-%d' % task['lo'], violations=[], n=0)
+    RET = ['int', 'byte', 'bool', 'string']
+    RETV = {'int': '1', 'byte': "'r'", 'bool': 'true', 'string': '"r"'}
+    GROUPS = [['5', '300', 'iv', 'iv + 1', 'bv + 1', 'K'], ['[1, 2]', '[iv, bv]', '[bv, 1]', 'cia', "['a', 1]"], ["'c'", 'bv', 'KB']]
+    SETS = [('byte', 'int'), ('int', 'byte'), ('byte', 'string', 'int'), ('byte[]', 'int[]'), ('const byte[]', 'const int[]'), ('const int[]', 'const byte[]'), ('byte[]', 'const int[]'),
+            ('bool', 'byte', 'int'), ('string', 'byte'), ('const byte[]', 'string', 'int[]'), ('int', 'string'), ('byte', 'bool')]
+
+    def expected(arg, ps):
+        et = S.E[arg][0]
+        exact_t = None
+        if et == 'lit':
+            fl = S.E[arg][1]
+            if fl and S.literal_resolvable(fl):
+                first = next(S.E[c][0] for c in fl if all(S.scal_coercible(x, S.E[c][0]) for x in fl))
+                exact_t = 'const %s[]' % first
+        elif et != 'locked':
+            exact_t = et
+        for k in range(len(ps)):
+            if ps[k] == exact_t:
+                return k
+        for k in range(len(ps)):
+            if S.coercible(arg, ps[k], for_call=True):
+                return k
+        return None
+    work = [(ps, a1, a2, shape) for ps in SETS for g in GROUPS for a1 in g for a2 in g for shape in (0, 1)]
+    for ps, a1, a2, shape in work[task['lo']::16]:
+        decls = ['%s f(%s p) { return %s; }' % (RET[k], ps[k], RETV[RET[k]]) for k in range(len(ps))]
+        e1, e2 = expected(a1, ps), expected(a2, ps)
+        if e1 is None:
+            continue        # the first call is itself ill-typed: covered by the single-call tables
+        if shape == 0:
+            decls.append('empty @is_you() { f(%s); f(%s); }' % (a1, a2))
+        else:
+            decls.insert(0, 'empty first() { f(%s); }' % a1)
+            decls.append('empty @is_you() { f(%s); first(); }' % a2)
+        src = S.PRE + '\n'.join(decls) + '\n'
+        res['n'] += 1
+        got, tree, env = accepts(src)
+        if got != (e2 is not None):
+            res['violations'].append(viol('f(%s) after f(%s) with overloads %s' % (a2, a1, ps), src, e2 is not None, got))
+            continue
+        if not got:
+            continue
+        fn = [f for f in tree.func_decls if f.name.name == '@is_you'][0]
+        calls = [st for st in fn.body.stmts if isinstance(st, A.FuncCall) and st.func.name == 'f']
+        call = calls[-1]
+        bound = RET.index(str(call.type))
+        if bound != e2:
+            res['violations'].append(dict(what='call bound to the wrong overload after an earlier call: f(%s) after f(%s) with overloads %s binds to #%d, documented rule gives #%d'
+                                          % (a2, a1, ps, bound, e2), case=src[-400:], replay=dict(type='typecheck', src=src, expected_accept=True)))
+        if len(res['violations']) > 5:
+            break
+    return res
+
+
 def main():
     rep = Report(PID, 'proof', 'CrossHair symbolic execution of the typechecker methods on AST objects built from symbolic selectors, against a transcription of the README typing rules')
     quick = rep.tier == 'quick'
@@ -290,13 +351,19 @@ def main():
     for r in pmap(overload_task, [dict(lo=i, step=16 * step) for i in range(16)], limit=1200):
         rep.absorb(r)
         no += r.get('n', 0)
+    nh = 0
+    for r in pmap(history_task, [dict(lo=i) for i in range(16)], limit=1200):
+        rep.absorb(r)
+        nh += r.get('n', 0)
+    rep.cov['overload_history_programs'] = nh
+    no += nh
     rep.counts['evaluations'] += n + no
     rep.cov['rule_position_programs'] = n
     rep.cov['overload_layout_programs'] = no
     rep.cov['enumeration_note'] = 'the rule x position tables are finite and enumerated completely (exhaustive over the tables, not over all programs): auxiliary to the CrossHair lemmas'
     rep.rule = ('CrossHair: 28 expression kinds x 12 types coercion and cast lattices; 7x7 element pairs x 12 types array-literal lemma; 3-overload sets over 7 parameter types x 7 argument kinds; '
-                'arity-2 overload pairs. Enumerations: declarations, global declarations, 16 places x 6 assignment operators, casts, argument passing, returns, conditions, indexing, '
-                '~90 hand-written rule cases, overload layouts with 4 caller positions')
+                'arity-2 overload pairs, and two such calls in a row against a shared program environment (history independence). Enumerations: declarations, global declarations, 16 places x 6 assignment operators, casts, argument passing, returns, conditions, indexing, '
+                '~90 hand-written rule cases, overload layouts with 4 caller positions, ordered pairs of calls of one overloaded name')
     rep.functions_encoded = ['hidc/ast/expressions.py: Expression.cast/coercible/coerce, IntValue, ArrayLiteral, Volatile, FuncCall.evaluate, ArrayLookup; hidc/ast/operators.py evaluate methods; '
                              'hidc/ast/statements.py Declaration/Assignment/IncAssignment/ReturnStatement; hidc/ast/symbols.py Environment.add_funcs; hidc/ast/program.py']
     rep.bounds = dict(per_obligation='one statement / one call; <= 3 overloads of arity <= 2', outside='whole-program compositionality (evaluate of a node consults only its children and the environment) is an argument, not a solver result')
